@@ -92,3 +92,30 @@ fn minimum_split_depth_follows_the_pool_size() {
         assert!(s.leaves >= min_leaves, "p={} leaves={}", p, s.leaves);
     }
 }
+
+#[test]
+fn map_init_state_is_per_leaf_and_shared_inside_a_leaf() {
+    // the number of init() calls equals the number of leaves, and items of one leaf see the same state
+    for seed in 0..50 {
+        rayon::sim::begin(seed, 4);
+        let inits = std::sync::atomic::AtomicUsize::new(0);
+        let v: Vec<usize> = (0..64usize)
+            .into_par_iter()
+            .map_init(
+                || {
+                    inits.fetch_add(1, std::sync::atomic::Ordering::SeqCst);
+                    0usize
+                },
+                |count, _x| {
+                    *count += 1;
+                    *count
+                },
+            )
+            .collect();
+        let s = rayon::sim::end();
+        assert_eq!(inits.load(std::sync::atomic::Ordering::SeqCst) as u64, s.leaves);
+        // inside a leaf the counter runs 1,2,3,...: the first item of every leaf sees 1
+        assert_eq!(v.iter().filter(|c| **c == 1).count() as u64, s.leaves);
+        assert!(v.iter().any(|c| *c > 1));
+    }
+}
